@@ -70,6 +70,10 @@ inductive Ev
   | uaf (i : Nat)                            -- the thread would touch the executor after it was freed
   deriving DecidableEq, Repr
 
+/-- the tasks passed to the discard callback during a step -/
+def discardsOf (l : List Ev) : List Task :=
+  l.filterMap fun e => match e with | .discard t => some t | _ => none
+
 /-- which of the repairs made in /repo the model includes (all `true` = the tree the check runs on) -/
 structure Variant where
   /-- iwstw_schedule re-tests `shutdown` after every wake-up from the full-queue wait -/
@@ -95,6 +99,14 @@ def wakeClient : CPc → CPc
 def wakeWorker : WPc → WPc
   | .wait _ => .wait true
   | w => w
+
+/-- a worker thread can take a step (it is not blocked in an unsignalled wait and has not returned) -/
+def wEnabled : WPc → Bool
+  | .wait false => false | .exited => false | _ => true
+
+/-- a client thread can take a step; `exited k` tells whether the k-th thread of the join list has returned -/
+def cEnabled (exited : Nat → Bool) : CPc → Bool
+  | .idle => false | .enter _ => true | .blocked _ s => s | .joining k => exited k
 
 /-! ## Single thread worker -/
 
@@ -240,6 +252,16 @@ def step (s : Stw) : Label → Stw × List Ev
 
 def run (s : Stw) (ls : List Label) : Stw := ls.foldl (fun s l => (s.step l).1) s
 
+/-- the thread can make a (non-spurious) move in this state -/
+def enabled (s : Stw) : Th → Bool
+  | .worker k => k == 0 && wEnabled s.w
+  | .client i => cEnabled (fun _ => s.w == .exited) (s.client i)
+
+/-- enabled threads: the worker, then clients by index -/
+def enabledList (s : Stw) : List Th :=
+  (if wEnabled s.w then [Th.worker 0] else []) ++
+  ((List.range s.clients.length).filter fun i => s.enabled (.client i)).map Th.client
+
 end Stw
 
 /-! ## Thread pool -/
@@ -357,6 +379,15 @@ def step (s : Tp) : Label → Tp × List Ev
   | .spur (.client _) => (s, [.disabled])
 
 def run (s : Tp) (ls : List Label) : Tp := ls.foldl (fun s l => (s.step l).1) s
+
+def enabled (s : Tp) : Th → Bool
+  | .worker k => wEnabled (s.worker k)
+  | .client i => cEnabled (fun k => s.worker (s.joinlist.getD k 0) == .exited) (s.client i)
+
+/-- enabled threads: workers by index, then clients by index -/
+def enabledList (s : Tp) : List Th :=
+  (((List.range s.ws.length).filter fun k => s.enabled (.worker k)).map Th.worker) ++
+  ((List.range s.clients.length).filter fun i => s.enabled (.client i)).map Th.client
 
 end Tp
 
